@@ -309,22 +309,5 @@ def _r3(ck: Checker, prog: Program):
         else:
             ck.violation("C18.R3", fq, f"refusal: {name}", f"a trim can complete although `{w}` (no raising guard on every path)", loc=f.loc())
     # three components, same arguments
-    g = prog.func("seismic_recording_3c.SeismicRecording3C.trim")
-    loops = [st for st in g.node.body if isinstance(st, ast.For)]
-    good = False
-    if len(loops) == 1 and isinstance(loops[0].iter, (ast.List, ast.Tuple)):
-        lits = [e.value for e in loops[0].iter.elts if isinstance(e, ast.Constant)]
-        cs = calls_in(loops[0], "trim")
-        if sorted(lits) == ["ew", "ns", "vt"] and len(cs) == 1:
-            c = cs[0]
-            a0 = kwarg(c, "start_time") or (c.args[0] if c.args else None)
-            a1 = kwarg(c, "end_time") or (c.args[1] if len(c.args) > 1 else None)
-            rdg = reaching(g)
-            good = isinstance(a0, ast.Name) and a0.id == "start_time" and isinstance(a1, ast.Name) and a1.id == "end_time" \
-                and rdg.only_param("start_time", c) and rdg.only_param("end_time", c) \
-                and isinstance(c.func.value, ast.Call) and call_name(c.func.value) == "getattr" \
-                and not any(isinstance(x, (ast.Break, ast.Continue)) for x in ast.walk(loops[0]))
-    if good:
-        ck.ok("C18.R3", g.qualname, "for component in [ns, ew, vt]: component.trim(start_time, end_time)")
-    else:
-        ck.violation("C18.R3", g.qualname, "component trim", "the three components are not all trimmed with the caller's (start_time, end_time)", loc=g.loc())
+    from .common import check_componentwise
+    check_componentwise(ck, prog, "C18.R3", "trim", "for component in [ns, ew, vt]: component.trim(start_time, end_time)")
